@@ -82,6 +82,7 @@ type torSpec struct {
 	files  []fileSpec
 	shape  string // generator's label of what is odd about it ("wf" if nothing)
 	salt   int    // makes the info-hash differ between same-named torrents
+	mhash  string // magnet: the info-hash (hex) it announces ("" = a synthetic one)
 }
 
 type live struct {
@@ -124,6 +125,7 @@ func resetTable(c *vhlib.Ctx) {
 		kill(t)
 	}
 	table = nil
+	kept = map[string]*keptNode{}
 	c.Emit("reset", "ok")
 }
 
@@ -144,6 +146,9 @@ func addTorrent(c *vhlib.Ctx, s torSpec) (bool, string) {
 	var err error
 	if s.kind == "magnet" {
 		hh := fmt.Sprintf("%040x", 0x1000+len(table)+s.salt)
+		if s.mhash != "" {
+			hh = s.mhash
+		}
 		t, err = tor.ReadMagnet("", "magnet:?xt=urn:btih:"+hh+"&dn="+url.QueryEscape(s.name))
 		if err == nil && t == nil {
 			err = errors.New("not a magnet")
@@ -525,6 +530,9 @@ func opCmp(c *vhlib.Ctx, a, b []string) {
 }
 
 func showNode(n fs.Node, err error) string {
+	if err == nil && n != nil {
+		keepNode(n)
+	}
 	if err != nil {
 		if errors.Is(err, bfuse.ENOENT) || err == bfuse.ENOENT {
 			return "enoent"
@@ -664,6 +672,383 @@ func opFOpen(c *vhlib.Ctx, filename string) {
 	}
 	c.Emit("fopen "+hx(filename), obs)
 	c.Count("fopen:"+strings.Fields(obs)[0], filename, true)
+}
+
+// ---------------------------------------------------------------- nodes kept across state changes
+
+// Every node a Lookup ever returned is kept (the first instance for each kind/hash/name),
+// as the kernel keeps a node while its entry is cached, and used again after the torrent's
+// state has changed: metadata completed, torrent deleted and re-added, a same-named
+// torrent with a smaller hash added.
+type keptNode struct {
+	n    fs.Node
+	kind string
+	hash []byte
+	name string
+}
+
+var kept = map[string]*keptNode{}
+var scenario = "plain"
+
+func keptKey(kind string, h []byte, name string) string {
+	return kind + "\x00" + string(h) + "\x00" + name
+}
+
+func keepNode(n fs.Node) {
+	kind, h, name := sfuse.VerifNodeInfo(n)
+	if kind != "dir" && kind != "file" {
+		return
+	}
+	k := keptKey(kind, h, name)
+	if kept[k] == nil {
+		kept[k] = &keptNode{n, kind, append([]byte(nil), h...), name}
+	}
+}
+
+func nodeFor(kind string, h []byte, name string) fs.Node {
+	if k := kept[keptKey(kind, h, name)]; k != nil {
+		return k.n
+	}
+	if kind == "dir" {
+		return sfuse.VerifDir(hash.Hash(h), name)
+	}
+	return sfuse.VerifFile(hash.Hash(h), name)
+}
+
+func liveByHash(h []byte) *live {
+	for i := range table {
+		if bytes.Equal(table[i].t.Hash, h) {
+			return &table[i]
+		}
+	}
+	return nil
+}
+
+func isENOENT(err error) bool {
+	return err != nil && (err == bfuse.ENOENT || errors.Is(err, bfuse.ENOENT))
+}
+
+// opNFile: Attr + Open on a (kept) file node.  Oracle: it answers what the file it names
+// is NOW: that file's offset, length and size while a live, complete torrent with that
+// hash has it, ENOENT otherwise.
+func opNFile(c *vhlib.Ctx, h []byte, name string) {
+	n := nodeFor("file", h, name)
+	var off, l int64
+	var size uint64
+	var err error
+	pn := vhlib.Recover(func() { off, l, size, err = fuseOpen(n) })
+	obs := "panic"
+	switch {
+	case pn != "":
+		violate(c, "panic:fuse:file.Open", pn, c.Case())
+	case isENOENT(err):
+		obs = "enoent"
+	case err != nil:
+		obs = "err " + err.Error()
+	default:
+		obs = fmt.Sprintf("ok %d %d size=%d", off, l, int64(size))
+	}
+	c.Emit(fmt.Sprintf("nfile %s %s", vhlib.Hex(h), hx(name)), obs)
+	c.Count("nfile:"+scenario+":"+strings.Fields(obs)[0], vhlib.Hex(h)+name, true)
+	if pn != "" {
+		return
+	}
+	want := "enoent"
+	judge := true
+	if lv := liveByHash(h); lv != nil && lv.spec.kind != "magnet" {
+		if lv.spec.kind == "single" {
+			if name == lv.spec.name {
+				want = fmt.Sprintf("ok 0 %d size=%d", lv.spec.length, lv.spec.length)
+			} else {
+				judge = false // a file node of a single-file torrent under another name: not judged
+			}
+		} else {
+			for _, f := range lv.spec.files {
+				if strings.Join(f.path, "/") == name {
+					want = fmt.Sprintf("ok %d %d size=%d", f.offset, f.length, f.length)
+				}
+			}
+		}
+	}
+	if judge && obs != want {
+		violate(c, "fuse:stale-node:file:"+scenario, fmt.Sprintf("file node (%s, %q) answers %q, the file it names is now %q", vhlib.Hex(h)[:8], name, obs, want), c.Case())
+	}
+}
+
+func dirEntries(lv *live, dirname string) map[string]bool {
+	var d []string
+	if dirname != "" {
+		d = strings.Split(dirname, "/")
+	}
+	out := map[string]bool{}
+	for _, f := range lv.spec.files {
+		if f.pad || !within(f.path, d) {
+			continue
+		}
+		t := "f"
+		if len(f.path) > len(d)+1 {
+			t = "d"
+		}
+		out[f.path[len(d)]+"\x00"+t] = true
+	}
+	return out
+}
+
+// opNDir: ReadDirAll on a (kept) directory node; oracle as above.
+func opNDir(c *vhlib.Ctx, h []byte, name string) {
+	n := nodeFor("dir", h, name)
+	var es []bfuse.Dirent
+	var err error
+	pn := vhlib.Recover(func() { es, err = n.(fs.HandleReadDirAller).ReadDirAll(bg) })
+	obs := "panic"
+	got := map[string]bool{}
+	switch {
+	case pn != "":
+		violate(c, "panic:fuse:directory.ReadDirAll", pn, c.Case())
+	case err != nil:
+		obs = "enoent"
+	default:
+		var w []string
+		for i, e := range es {
+			if i < 2 && (e.Name == "." || e.Name == "..") {
+				continue
+			}
+			w = append(w, hx(e.Name)+":"+dtype(e.Type))
+			got[e.Name+"\x00"+dtype(e.Type)] = true
+		}
+		obs = showList(w)
+	}
+	c.Emit(fmt.Sprintf("ndir %s %s", vhlib.Hex(h), hx(name)), obs)
+	c.Count("ndir:"+scenario+":"+map[bool]string{true: "enoent", false: "entries"}[obs == "enoent"], vhlib.Hex(h)+name, true)
+	if pn != "" {
+		return
+	}
+	lv := liveByHash(h)
+	if lv == nil || lv.spec.kind == "magnet" {
+		if obs != "enoent" {
+			violate(c, "fuse:stale-node:dir:"+scenario, fmt.Sprintf("directory node (%s, %q) lists %q although no live complete torrent has that hash", vhlib.Hex(h)[:8], name, obs), c.Case())
+		}
+		return
+	}
+	if lv.spec.kind == "single" {
+		return // a directory node of a single-file torrent: not judged
+	}
+	want := dirEntries(lv, name)
+	same := err == nil && len(want) == len(got)
+	for k := range want {
+		if !got[k] {
+			same = false
+		}
+	}
+	if !same {
+		violate(c, "fuse:stale-node:dir:"+scenario, fmt.Sprintf("directory node (%s, %q) lists %q, the directory now has %d entries", vhlib.Hex(h)[:8], name, obs, len(want)), c.Case())
+	}
+}
+
+// opNLook: Lookup through a (kept) directory node.
+func opNLook(c *vhlib.Ctx, h []byte, dirname, name string) {
+	n := nodeFor("dir", h, dirname)
+	var ch fs.Node
+	var err error
+	pn := vhlib.Recover(func() { ch, err = n.(fs.NodeStringLookuper).Lookup(bg, name) })
+	obs := "panic"
+	if pn == "" {
+		obs = showNode(ch, err)
+	} else {
+		violate(c, "panic:fuse:directory.Lookup", pn, c.Case())
+	}
+	c.Emit(fmt.Sprintf("nlook %s %s %s", vhlib.Hex(h), hx(dirname), hx(name)), obs)
+	c.Count("nlook:"+scenario+":"+strings.Fields(obs)[0], vhlib.Hex(h)+dirname+"\x00"+name, true)
+}
+
+// useKept exercises every kept node (in a fixed order).
+func useKept(c *vhlib.Ctx) {
+	var keys []string
+	for k := range kept {
+		keys = append(keys, k)
+	}
+	sort.Strings(keys)
+	for _, k := range keys {
+		kn := kept[k]
+		if kn.kind == "file" {
+			opNFile(c, kn.hash, kn.name)
+		} else {
+			opNDir(c, kn.hash, kn.name)
+			opNLook(c, kn.hash, kn.name, "nope")
+			if lv := liveByHash(kn.hash); lv != nil {
+				for e := range dirEntries(lv, kn.name) {
+					opNLook(c, kn.hash, kn.name, strings.SplitN(e, "\x00", 2)[0])
+					break
+				}
+			}
+		}
+	}
+}
+
+// lookupAll obtains (and thereby keeps) the node of every directory and file of the
+// current torrent through real Lookups from the root down.
+func lookupAll(c *vhlib.Ctx) {
+	l := cur()
+	opRLookup(c, l.spec.name)
+	if l.spec.kind != "multi" {
+		return
+	}
+	seen := map[string]bool{}
+	for _, f := range l.spec.files {
+		for j := 0; j < len(f.path); j++ {
+			k := pkey(f.path[:j+1])
+			if seen[k] {
+				continue
+			}
+			seen[k] = true
+			opNLook(c, l.t.Hash, strings.Join(f.path[:j], "/"), f.path[j])
+		}
+	}
+}
+
+// completeMagnet delivers the info dictionary of `full` to the current (magnet) torrent
+// through the real metadata path (resizeMetadata + gotMetadata -> MetadataComplete).
+func completeMagnet(c *vhlib.Ctx, full torSpec) bool {
+	l := cur()
+	info := full.meta().Info()
+	size := uint32(len(info))
+	var done bool
+	var err error
+	pn := vhlib.Recover(func() {
+		if err = tor.VerifResizeMetadata(l.t, size); err != nil {
+			return
+		}
+		for i := 0; i*16384 < len(info) && err == nil; i++ {
+			end := (i + 1) * 16384
+			if end > len(info) {
+				end = len(info)
+			}
+			done, err = tor.VerifGotMetadata(l.t, uint32(i), size, append([]byte(nil), info[i*16384:end]...))
+		}
+	})
+	if pn != "" || err != nil || !done || !l.t.InfoComplete() {
+		c.Note(fmt.Sprintf("magnet completion failed: panic=%q err=%v done=%v", pn, err, done))
+		c.Count("complete:failed", full.name, false)
+		return false
+	}
+	var off int64
+	for i := range full.files {
+		full.files[i].offset = off
+		off += full.files[i].length
+	}
+	if full.kind == "multi" {
+		full.length = off
+	}
+	full.mhash = l.spec.mhash
+	l.spec = full
+	if full.kind == "single" {
+		c.Emit(fmt.Sprintf("complete single %d", full.length), "ok")
+	} else {
+		c.Emit("complete multi", "ok")
+		for _, f := range full.files {
+			pad := "0"
+			if f.pad {
+				pad = "1"
+			}
+			c.Emit(fmt.Sprintf("file %s %d %s", pad, f.length, compsHex(f.path)), "ok")
+		}
+	}
+	c.Count("complete:"+full.kind, full.name, true)
+	return true
+}
+
+func opKill(c *vhlib.Ctx, h []byte) {
+	for i := range table {
+		if bytes.Equal(table[i].t.Hash, h) {
+			kill(table[i].t)
+			table = append(table[:i], table[i+1:]...)
+			break
+		}
+	}
+	c.Emit("kill "+vhlib.Hex(h), "ok")
+}
+
+// runLifecycle: nodes obtained EARLIER are used AFTER the torrent's state changed.
+func runLifecycle(c *vhlib.Ctx, r *vhlib.Rand, which int) {
+	c.NewCase()
+	resetTable(c)
+	defer func() { scenario = "plain" }()
+	full := genWF(r)
+	if full.kind == "single" && full.length == 0 {
+		full.length = 7
+	}
+	switch which % 3 {
+	case 0:
+		// a magnet looked up before its metadata is known, then completed
+		scenario = "magnet-complete"
+		ih := full.meta().InfoHash()
+		if ok, why := addTorrent(c, torSpec{kind: "magnet", name: full.name, shape: "wf", mhash: vhlib.Hex(ih)}); !ok {
+			c.Count("rejected:lifecycle", why, false)
+			return
+		}
+		opRLookup(c, full.name) // root.Lookup has no InfoComplete test: a node exists already
+		opRReadDir(c)
+		useKept(c)
+		if !completeMagnet(c, full) {
+			return
+		}
+		useKept(c)
+		lookupAll(c)
+		useKept(c)
+		queries(c, r)
+	case 1:
+		// deleted and added again
+		scenario = "kill-readd"
+		if ok, why := addTorrent(c, full); !ok {
+			c.Count("rejected:lifecycle", why, false)
+			return
+		}
+		lookupAll(c)
+		useKept(c)
+		opKill(c, cur().t.Hash)
+		opRLookup(c, full.name)
+		useKept(c)
+		if ok, _ := addTorrent(c, full); !ok {
+			return
+		}
+		useKept(c)
+		queries(c, r)
+	default:
+		// a torrent of the same name with a smaller (or larger) hash appears and goes
+		scenario = "shadow"
+		if ok, why := addTorrent(c, full); !ok {
+			c.Count("rejected:lifecycle", why, false)
+			return
+		}
+		first := append([]byte(nil), cur().t.Hash...)
+		lookupAll(c)
+		other := genWF(r)
+		other.name = full.name
+		best := -1
+		for salt := 1; salt <= 6; salt++ {
+			other.salt = salt
+			if bytes.Compare(other.meta().InfoHash(), first) < 0 {
+				best = salt
+				break
+			}
+		}
+		if best < 0 {
+			other.salt = 1
+		}
+		if ok, _ := addTorrent(c, other); !ok {
+			return
+		}
+		second := append([]byte(nil), cur().t.Hash...)
+		opRLookup(c, full.name)
+		lookupAll(c)
+		useKept(c)
+		opKill(c, second)
+		opRLookup(c, full.name)
+		useKept(c)
+		opKill(c, first)
+		opRLookup(c, full.name)
+		useKept(c)
+	}
 }
 
 // ---------------------------------------------------------------- the oracle
@@ -1311,6 +1696,8 @@ func runCase(c *vhlib.Ctx, r *vhlib.Rand, specs []torSpec) {
 
 func genCase(c *vhlib.Ctx, r *vhlib.Rand, i int) {
 	switch k := r.Intn(100); {
+	case k < 18:
+		runLifecycle(c, r, i)
 	case k < 65:
 		runCase(c, r, []torSpec{genWF(r)})
 	case k < 78:
@@ -1337,11 +1724,20 @@ func genCase(c *vhlib.Ctx, r *vhlib.Rand, i int) {
 
 // replay: the op lines rebuild the same torrents
 func replay(c *vhlib.Ctx) {
+	scenario = "replay"
 	var pending *torSpec
+	pendingIsCompletion := false
 	flush := func() {
 		if pending != nil {
 			s := *pending
 			pending = nil
+			if pendingIsCompletion {
+				pendingIsCompletion = false
+				if len(table) > 0 {
+					completeMagnet(c, s)
+				}
+				return
+			}
 			if ok, why := addTorrent(c, s); !ok {
 				c.Note("replay: torrent rejected: " + why)
 			}
@@ -1363,7 +1759,8 @@ func replay(c *vhlib.Ctx) {
 		if f[0] != "file" {
 			flush()
 		}
-		if len(table) == 0 && f[0] != "reset" && f[0] != "new" && f[0] != "file" && f[0] != "parse" && f[0] != "cmp" {
+		needsCur := map[string]bool{"parms": true, "hget": true, "flookup": true, "freaddir": true, "fopen": true, "x": true, "complete": true}
+		if len(table) == 0 && needsCur[f[0]] {
 			c.Emit(l, "bad-op")
 			continue
 		}
@@ -1376,7 +1773,25 @@ func replay(c *vhlib.Ctx) {
 			if f[3] == "single" && len(f) == 5 {
 				s.length, _ = strconv.ParseInt(f[4], 10, 64)
 			}
+			if f[3] == "magnet" {
+				s.mhash = f[1]
+				s.salt = 0
+			}
 			pending = &s
+		case f[0] == "complete" && len(f) >= 2:
+			s := torSpec{name: cur().spec.name, kind: f[1], shape: "replay"}
+			if f[1] == "single" && len(f) == 3 {
+				s.length, _ = strconv.ParseInt(f[2], 10, 64)
+			}
+			pending, pendingIsCompletion = &s, true
+		case f[0] == "kill" && len(f) == 2:
+			opKill(c, vhlib.UnHex(f[1]))
+		case f[0] == "nfile" && len(f) == 3:
+			opNFile(c, vhlib.UnHex(f[1]), string(vhlib.UnHex(f[2])))
+		case f[0] == "ndir" && len(f) == 3:
+			opNDir(c, vhlib.UnHex(f[1]), string(vhlib.UnHex(f[2])))
+		case f[0] == "nlook" && len(f) == 4:
+			opNLook(c, vhlib.UnHex(f[1]), string(vhlib.UnHex(f[2])), string(vhlib.UnHex(f[3])))
 		case f[0] == "file" && len(f) >= 3 && pending != nil:
 			ln, _ := strconv.ParseInt(f[2], 10, 64)
 			pending.files = append(pending.files, fileSpec{path: append([]string{}, unhexAll(f[3:])...), length: ln, pad: f[1] == "1"})
